@@ -373,6 +373,29 @@ def check_postprocessed(rec, case, mech, o, oo, cmds, actual_text, expected_text
         if post:
             rec.violation('postprocessed_pair_for_a_passing_pair', {'case': case, 'mech': mech, 'facts': {'cmd': post[0]}})
         return
+    if v == 'fail' and 'inexcusable' not in info and not o.get('remove_lines') and not o.get('preprocess') \
+            and al and el and al[-1] != '' and el[-1] != '' and len(al) != len(el):
+        # different numbers of lines, nothing removed or preprocessed: when one text is the other plus extra lines at the end and
+        # every pair of the common part is equal or excused, the post-processed pair has to agree on the whole common part
+        m = min(len(al), len(el))
+        oo2 = {k: oo[k] for k in ('lstrip', 'rstrip', 'ignore_substrings', 'ignore_patterns') if oo.get(k)}
+        v2, info2 = textcmp.verdict(al[:m], el[:m], oo2)
+        if v2 == 'pass' and not info2.get('maybe') and not info2.get('strip_only_excuse'):
+            rec.event('artefact:extra_lines_after_an_excused_part')
+            if not post:
+                if info2.get('excused'):
+                    rec.violation('no_postprocessed_pair', {'case': case, 'mech': dict(mech, lines='different number'), 'facts': {'message': msg[:500]}})
+                return
+            pa, pe = post[0][1], post[0][2]
+            if os.path.exists(pa) and os.path.exists(pe):
+                ba, be = _body(read_text(pa).split('\n')), _body(read_text(pe).split('\n'))
+                bad = [(x, y) for x, y in list(zip(ba, be))[:m] if x != y]
+                if bad:
+                    rec.violation('postprocessed_pair_wrong_lines', {
+                        'case': case, 'mech': dict(mech, removal=False, subs=bool(o.get('ignore_substrings')), pats=bool(o.get('ignore_patterns')),
+                                                   lines='different number'),
+                        'facts': {'differing_lines_in_files': bad[:5], 'unexcused_pairs': [], 'excused': info2.get('excused'), 'pair': commonname}})
+            return
     if v != 'fail' or 'inexcusable' not in info or info.get('maybe'):
         rec.unspecified('post-processed pair: oracle has no definite unexcused set')
         return
@@ -387,14 +410,7 @@ def check_postprocessed(rec, case, mech, o, oo, cmds, actual_text, expected_text
     if not (os.path.exists(pa) and os.path.exists(pe)):
         return     # already reported by check_commands
     ta, te = read_text(pa).split('\n'), read_text(pe).split('\n')
-
-    def body(t):
-        # strip the '***\n<command>***\n\n' header the files start with
-        if t and t[0] == '***':
-            k = t.index('***', 1) if '***' in t[1:] else 0
-            return t[k + 2:]
-        return t
-    ba, be = body(ta), body(te)
+    ba, be = _body(ta), _body(te)
     diffs = [(x, y) for x, y in zip(ba, be) if x != y]
     if len(ba) != len(be):
         diffs.append(('<length %d>' % len(ba), '<length %d>' % len(be)))
@@ -404,6 +420,14 @@ def check_postprocessed(rec, case, mech, o, oo, cmds, actual_text, expected_text
             'case': case, 'mech': dict(mech, removal=bool(o.get('remove_lines')), subs=bool(o.get('ignore_substrings')),
                                        pats=bool(o.get('ignore_patterns'))),
             'facts': {'differing_lines_in_files': diffs[:5], 'unexcused_pairs': want[:5], 'pair': commonname}})
+
+
+def _body(t):
+    # strip the '***\n<command>***\n\n' header the files start with
+    if t and t[0] == '***':
+        k = t.index('***', 1) if '***' in t[1:] else 0
+        return t[k + 2:]
+    return t
 
 
 def _unexcused_pairs(al, el, oo, info):
